@@ -80,6 +80,8 @@ func (a *Application) executePassthroughRequest(
 	a.logRequestResult(pr, err)
 
 	if err != nil {
+		// a response that broke off after it had started is a failure in the translator's books, too
+		pr.hadError = true
 		// only write error if response hasn't started
 		if !tracker.started && w.Header().Get(constants.HeaderContentType) == "" {
 			a.writeTranslatorError(w, trans, pr, fmt.Errorf("proxy error: %w", err), http.StatusBadGateway)
@@ -159,6 +161,8 @@ func (a *Application) executeTranslationRequest(
 	a.logRequestResult(pr, proxyErr)
 
 	if proxyErr != nil {
+		// a response that broke off after it had started is a failure in the translator's books, too
+		pr.hadError = true
 		// only write error if response hasn't started
 		if w.Header().Get(constants.HeaderContentType) == "" {
 			a.writeTranslatorError(w, trans, pr, fmt.Errorf("proxy error: %w", proxyErr), http.StatusBadGateway)
